@@ -98,13 +98,13 @@ theorem readPoints_consumed {dec : Bytes → Except Err Pt} {size : Nat} :
 /-- With a canonical point decoder, `readPoints` accepts only the concatenation of the canonical
 encodings of what it returns. -/
 theorem readPoints_canonical {dec : Bytes → Except Err Pt} {enc : Pt → Bytes} {size : Nat}
-    (hcan : ∀ a p, dec a = .ok p → enc p = a) :
-    ∀ {n : Nat} {bs : Bytes} {l : List Pt} {r : Bytes}, readPoints dec size n bs = .ok (l, r) →
+    (hcan : ∀ a p, WF a → dec a = .ok p → enc p = a) :
+    ∀ {n : Nat} {bs : Bytes} {l : List Pt} {r : Bytes}, WF bs → readPoints dec size n bs = .ok (l, r) →
       bs = l.flatMap enc ++ r
-  | 0, bs, l, r, h => by
+  | 0, bs, l, r, _, h => by
     simp only [readPoints, Except.ok.injEq, Prod.mk.injEq] at h
     rw [← h.1, ← h.2]; simp
-  | n + 1, bs, l, r, h => by
+  | n + 1, bs, l, r, hwf, h => by
     simp only [readPoints] at h
     split at h
     · simp at h
@@ -117,8 +117,9 @@ theorem readPoints_canonical {dec : Bytes → Except Err Pt} {enc : Pt → Bytes
         · next l' r' hrec =>
           simp only [Except.ok.injEq, Prod.mk.injEq] at h
           have h1 := readN_ok hr
-          have h2 := readPoints_canonical hcan hrec
-          rw [← h.1, ← h.2, List.flatMap_cons, hcan a p hp, h1.1, h2, List.append_assoc]
+          have w : WF a ∧ WF r0 := by rw [h1.1] at hwf; exact WF_append.mp hwf
+          have h2 := readPoints_canonical hcan w.2 hrec
+          rw [← h.1, ← h.2, List.flatMap_cons, hcan a p w.1 hp, h1.1, h2, List.append_assoc]
 
 /-- Round trip: the concatenated encodings of `l` followed by `r` decode to `(l, r)`. -/
 theorem readPoints_encode {dec : Bytes → Except Err Pt} {enc : Pt → Bytes} {size : Nat}
